@@ -133,7 +133,43 @@ class HLightDict(HLight):
         return "HLightDict(%r)" % (self.name,)
 
 
+def _eqkey(node):
+    return sum(map(ord, str(node.name))) % 2
+
+
+class HNodeEq(HNode):
+    """What users write: a node class with value-based equality.  Many distinct
+    nodes compare (and hash) equal; the library must still treat them as distinct."""
+
+    def __eq__(self, other):
+        return isinstance(other, HNodeEq) and _eqkey(self) == _eqkey(other)
+
+    def __ne__(self, other):
+        return not self.__eq__(other)
+
+    def __hash__(self):
+        return _eqkey(self)
+
+
+class HLightEq(HLight):
+    __slots__ = ()
+
+    def __eq__(self, other):
+        return isinstance(other, HLightEq) and _eqkey(self) == _eqkey(other)
+
+    def __ne__(self, other):
+        return not self.__eq__(other)
+
+    def __hash__(self):
+        return _eqkey(self)
+
+    def __repr__(self):
+        return "HLightEq(%r)" % (self.name,)
+
+
 CLASSES = {
+    "HNodeEq": HNodeEq,
+    "HLightEq": HLightEq,
     "HNode": HNode,
     "HAny": HAny,
     "HMix": HMix,
@@ -143,6 +179,8 @@ CLASSES = {
     "HLightDict": HLightDict,
 }
 FAMILY = {
+    "HNodeEq": "node",
+    "HLightEq": "light",
     "HNode": "node",
     "HAny": "node",
     "HMix": "node",
